@@ -311,6 +311,8 @@ def r5_decoded_fields(ctx):
 
 
 def run(ctx):
+    from . import effects
+    effects.check_property(ctx, "C03")    # R03.E: no operation on shared protocol state outside the reviewed table
     r1_layout(ctx)
     r2_peek_then_consume(ctx)
     r3_totality(ctx)
